@@ -27,6 +27,13 @@ class Pair:
         self._intent = intent
         self.upper_neighbors = upper  #: The directly implied concepts.
         self.lower_neighbors = lower  #: The directly subsumed concepts.
+
+    def __getstate__(self):
+        """Pickle linked concepts by index (the lattice relinks them on unpickling)."""
+        state = self.__dict__.copy()
+        for name in ('upper_neighbors', 'lower_neighbors', 'atoms'):
+            state[name] = tuple(c.index for c in state[name])
+        return state
  
     def _eq(self, other):
         if not isinstance(other, Concept):
